@@ -594,7 +594,11 @@ class Patch:
                 raise Crash(spec)
 
         backend = Env.backend()
-        repl = dict(hl=p, uuid=types.SimpleNamespace(uuid4=uuid4), VariantDataset=FakeVDS, combine=combine, combine_r=combine_r,
+        import uuid as _real_uuid
+        # only the random generator is replaced (harness-owned); everything else of the uuid module is the real thing
+        _uuid_ns = types.SimpleNamespace(**{k: getattr(_real_uuid, k) for k in dir(_real_uuid) if not k.startswith('__')})
+        _uuid_ns.uuid4 = uuid4
+        repl = dict(hl=p, uuid=_uuid_ns, VariantDataset=FakeVDS, combine=combine, combine_r=combine_r,
                     combine_variant_datasets=combine_variant_datasets, calculate_new_intervals=calculate_new_intervals,
                     transform_gvcf=transform_gvcf, defined_entry_fields=defined_entry_fields,
                     make_reference_stream=make_reference_stream, make_variant_stream=make_variant_stream,
